@@ -66,6 +66,10 @@ class JSONFormatter(Formatter):
             element["description"] = feature.description
 
     def background(self, background):
+        # -- ENSURE: Status of the preceding scenario is stored in its own element
+        # (a rule background may follow after scenarios of the feature).
+        self.finish_current_scenario()
+        self.current_scenario = None
         element = self.add_feature_element({
             "type": "background",
             "keyword": background.keyword,
